@@ -38,6 +38,8 @@ Proof.
   intro H. destruct e; simpl; try exact H;
     try (apply write_frame_counter; try apply write_frame_counter; exact H).
   - apply schedule_counter. exact H.
+  - destruct (existsb (fun e => fst e =? sid) (sq c)); [|exact H].
+    exact (write_frame_counter c 0 (- sid) H).
   - apply schedule_counter. exact H.
 Qed.
 
@@ -85,13 +87,15 @@ Proof.
   - pose proof (write_frame_queued c 0 0). pose proof (write_frame_queued (write_frame c 0 0) 0 (- sid)). lia.
   - pose proof (write_frame_queued c sid tag). lia.
   - pose proof (write_frame_queued c 0 tag). lia.
+  - destruct (existsb (fun e => fst e =? sid) (sq c)); simpl; [|lia]. pose proof (write_frame_queued c 0 (- sid)). lia.
   - pose proof (schedule_queued (mkC (zero c) (sq c) (queued c) false (needs_flush c) (need_ack c) (closed c) (started c))).
     unfold wrote_frame. simpl in *. lia.
 Qed.
 Lemma handle_closed c e : closed (handle c e) = closed c.
 Proof.
   destruct e; simpl; rewrite ?write_frame_closed, ?schedule_closed; try reflexivity.
-  unfold wrote_frame. rewrite schedule_closed. reflexivity.
+  - destruct (existsb (fun e => fst e =? sid) (sq c)); simpl; [apply write_frame_closed|reflexivity].
+  - unfold wrote_frame. rewrite schedule_closed. reflexivity.
 Qed.
 
 Definition bound_ok (limit : Z) (c : conn) : Prop :=
@@ -218,11 +222,11 @@ Qed.
 
 Lemma apply_cop_good limit o st : good limit (fst st) -> good limit (fst (apply_cop limit o st)).
 Proof.
-  intro H. destruct o; simpl; [apply rep_events_good, H| | |exact H]; repeat apply iteration_good; exact H.
+  intro H. destruct o; simpl; [apply rep_events_good, H| | | |exact H]; repeat apply iteration_good; exact H.
 Qed.
 Lemma apply_cop_closed limit o st : closed (fst st) = true -> closed (fst (apply_cop limit o st)) = true.
 Proof.
-  intro H. destruct o; simpl; [apply rep_events_closed, H| | |exact H]; repeat apply iteration_closed_mono; exact H.
+  intro H. destruct o; simpl; [apply rep_events_closed, H| | | |exact H]; repeat apply iteration_closed_mono; exact H.
 Qed.
 
 Lemma sample_step limit wc c r :
